@@ -45,6 +45,7 @@ fn main() {
         "replay-sessions" => sessions::replay(&a),
         "stress" => sessions::stress(&a),
         "record-bigsent" => sessions::record_bigsent(&a),
+        "record-longlife" => sessions::record_longlife(&a),
         "record-conn" => connrec::record(&a),
         "replay-conn" => connrec::replay(&a),
         "truncate" => image::truncate(&a),
